@@ -283,6 +283,13 @@ func formCatalogue() []formCase {
 			formCase{"in-opt-absent-" + ln, []Reg{mkReg("InU_3_5_Opt", l)}},
 			formCase{"in-group-empty-" + ln, []Reg{mkReg("InU_3_8_Group", l)}},
 			formCase{"twice-" + ln, []Reg{mkReg("PosB_1_0", l), mkReg("Twice_K0", l)}},
+			// a group with a dozen members (more than the tests and the documentation ever use): all of
+			// them, once each, in registration order - resolved as a group and injected
+			formCase{"group-of-12-" + ln, []Reg{
+				mkReg("PosA_2_0", l, withGroup("g")), mkReg("PosB_2_0", l, withGroup("g")), mkReg("InU_2_0_Plain", l, withGroup("g")), mkReg("InU_2_0_Keyed", l, withGroup("g")),
+				mkReg("InU_2_0_Group", l, withGroup("g")), mkReg("InU_2_0_Opt", l, withGroup("g")), mkReg("InU_2_0_Iface", l, withGroup("g")), mkReg("InM_2_000", l, withGroup("g")),
+				mkReg("Leaf_K2_a", l, withGroup("g")), mkReg("Leaf_K2_b", l, withGroup("g")), mkReg("Leaf_K2_c", l, withGroup("g")), mkReg("BIpos_K2", l, withGroup("g")),
+				mkReg("InU_3_4_Group", l)}},
 		)
 	}
 	// forms behind open findings (full profile): each gets its own signature when it fails
